@@ -196,6 +196,14 @@ class MP:
 
     __rmul__ = __mul__
 
+    def __truediv__(self, o):
+        """Division by an exact non-zero number (used by numpy.mean on object arrays)."""
+        c = cval(o)
+        if isinstance(c, int):
+            c = Fraction(c)
+        return MP({k: simplify(v / c) if not isinstance(v, int) else simplify(Fraction(v) / c if not isinstance(c, GQ) else GQ.lift(v) / c)
+                   for k, v in self.d.items()})
+
     def __pow__(self, n):
         n = int(n)
         if n < 0:
